@@ -45,10 +45,11 @@ def table_kinds(ctx: Ctx) -> Dict[Tuple[str, str], List[Tuple[FuncInfo, Event, b
     SimRunner fields and the function name for local tables."""
     out: Dict[Tuple[str, str], List[Tuple[FuncInfo, Event, bool]]] = {}
     typer = typer_of(ctx.prog)
+    from ..flow import spliced
     for fi in ctx.prog.all_functions():
-        s = summarise(ctx.prog, fi)
+        s = spliced(ctx.prog, fi)
         for e in s.of_kind("store"):
-            tgt = e.term[1]
+            tgt = unalias(e.term[1], s, fi)
             if tgt[0] != "idx":
                 continue
             base = tgt[1]
@@ -66,6 +67,8 @@ def table_kinds(ctx: Ctx) -> Dict[Tuple[str, str], List[Tuple[FuncInfo, Event, b
 def _table_ref(t: Term) -> Optional[Tuple[str, Term, Term]]:
     """entry of a delay table -> (table name, owner/table term, key)"""
     t = T.strip(t)
+    if t[0] in ("ifexp", "phi"):
+        return _table_ref(t[2]) or _table_ref(t[3])
     if t[0] == "idx" and t[2] == T.const(0):      # (delay, path)[0]
         return _table_ref(t[1])
     if t[0] == "idx" and t[1][0] == "attr" and t[1][2] in DELAY_TABLES:
@@ -86,12 +89,15 @@ def _compare_sites(ctx: Ctx, c: Collector) -> None:
     typer = typer_of(prog)
     kinds = table_kinds(ctx)
     nsites = 0
+    from ..flow import spliced, spliceable
     for fi in prog.all_functions():
         if fi.cls is not None and fi.cls.qualname == TI:
             continue
-        s = summarise(prog, fi)
+        if fi.parent is not None and not fi.is_async and fi.cls is None and spliceable(prog, fi.parent, fi):
+            continue        # analysed spliced into its parent
+        s = spliced(prog, fi)
         g = None
-        for e, sub, env in function_sites(prog, fi):
+        for e, sub, env in function_sites(prog, fi, s):
             operands: List[Term] = []
             what = ""
             if sub[0] == "cmp" and sub[1] in ("<", "<="):
@@ -113,7 +119,7 @@ def _compare_sites(ctx: Ctx, c: Collector) -> None:
             # provenance
             path_reason = None
             for o in operands:
-                o = T.strip(o)
+                o = unalias(T.strip(o), s, fi)
                 if o[0] == "op" and o[1] == "+":
                     path_reason = f"operand {T.show(o)[:60]} is a sum of delays along a path"
                     break
@@ -142,16 +148,16 @@ def _compare_sites(ctx: Ctx, c: Collector) -> None:
                             break
             key_table = ""
             for o in operands:
-                r = _table_ref(o)
+                r = _table_ref(unalias(T.strip(o), s, fi))
                 if r is not None:
                     key_table = r[0].replace("local:", "")
             construct = f"{what} on TieredInterval [{key_table or 'edge delays'}]"
             loc = ctx.loc(fi, e)
             if path_reason:
-                c.bad("site", fi.qualname, construct + " path-delay",
+                c.bad("site", fi.module.name, construct + " path-delay",
                       path_reason + ": delays of different cutoff are incomparable (TieredInterval.__lt__ asserts), so a valid acyclic scenario can abort", loc)
             else:
-                c.ok("site", fi.qualname, construct + " same-shape", "both operands are edge delays of the same simulator pair (same pre_length, length and cutoff)", loc)
+                c.ok("site", fi.module.name, construct + " same-shape", "both operands are edge delays of the same simulator pair (same pre_length, length and cutoff)", loc)
     c.info["interval_comparison_sites"] = nsites
     if nsites < 4:
         raise AnalysisError(f"R7 found only {nsites} TieredInterval comparison sites (4 confirmed by hand)")
